@@ -403,6 +403,17 @@ func init() {
 }
 
 func runC01(c *rt.Ctx) {
+	soloRun(c, "date")
+	retainedAcrossCollections(c, "Date.MarshalText / DefaultFormatter(nil)", 256, func(i int) ([]byte, string) {
+		y, m, d := 1000+i%8000, 1+i%12, 1+i%28
+		dt := date.New(y, time.Month(m), d)
+		if i%2 == 0 {
+			b, _ := dt.MarshalText()
+			return b, fmt.Sprintf("%04d-%02d-%02d", y, m, d)
+		}
+		b, _ := date.DefaultFormatter(nil, dt, date.FormatBasic)
+		return b, fmt.Sprintf("%04d%02d%02d", y, m, d)
+	})
 	appenderSweep(c, func() []any {
 		var out []any
 		for _, v := range []date.Date{date.New(2024, 2, 29), date.New(1, 1, 1), date.New(9999, 12, 31), date.New(-44, 3, 15), date.New(123456789, 10, 5), date.Date{}} {
